@@ -458,6 +458,7 @@ def run(ctx):
         "'rejected' means any exception; removal of the vdims dimension is realised by renaming it",
         "aspects on which the property is silent follow the library in the table and are reported as notes only",
     ]
+    core.df_stage(ctx, df)   # mixed histories (spec/DF.tla): the clauses that come from this property's text
     return core.finish(ctx, rule=RULE, extra={"embeddings": [e.name for e in embs], "value_scales": VSCALES})
 
 
